@@ -4,6 +4,7 @@
 //
 // Line protocol (one output line per input line):
 //   n2sr  <d|f> <hexbits> <prec> <fmt 0|1|2> <w 1|2|4> <pre-units>  -> units appended after <pre>
+//   n2sra <d|f> <hexbits> <w 1|2|4> <pre-units>                     -> the same for prec 0..40 x fmt 0,1,2, joined by ';'
 //   n2si  <8|16|32|64> <signed 0|1> <decimal> <w 1|2|4> <pre-units> -> units appended after <pre>
 //   n2sir <8|16|32|64> <decimal>                                     -> units written by IntToString<true> (reversed digits)
 //   n2sx  <d|f> <hexbits> <prec> <fmt>    -> "ok" | "diff <qentem text> <snprintf text>"   (second opinion)
@@ -253,6 +254,18 @@ int main(int argc, char **argv) {
             else if (t[5] == "2") vh::emit(doReal<char16_t>(is_d, bits, prec, fmt, pre));
             else if (t[5] == "4") vh::emit(doReal<char32_t>(is_d, bits, prec, fmt, pre));
             else vh::emit("bad-op");
+        } else if (t[0] == "n2sra" && t.size() == 5 && vh::parse_nats(t[4], pre)) {
+            const bool     is_d = (t[1] == "d");
+            const uint64_t bits = strtoull(t[2].c_str(), nullptr, 16);
+            std::string    res;
+            for (unsigned p = 0; p <= 40; p++)
+                for (unsigned f = 0; f < 3; f++) {
+                    if (!res.empty()) res += ';';
+                    if (t[3] == "1") res += doReal<char>(is_d, bits, p, f, pre);
+                    else if (t[3] == "2") res += doReal<char16_t>(is_d, bits, p, f, pre);
+                    else res += doReal<char32_t>(is_d, bits, p, f, pre);
+                }
+            vh::emit(res);
         } else if (t[0] == "n2si" && t.size() == 6 && vh::parse_nats(t[5], pre)) {
             const unsigned bits = unsigned(strtoul(t[1].c_str(), nullptr, 10));
             const bool     sgn  = (t[2] == "1");
